@@ -38,15 +38,17 @@ class RecSend:
         self.items = []  # (eseq_call, t, task, item)
 
     async def send(self, item):
+        # an item counts as written only once the real stream accepted it (send() may be
+        # cancelled at its checkpoint, or block on a full buffer)
+        self._sim.rec(self._actor, "write-call", None)
+        await self._inner.send(item)
         e = self._sim.rec(self._actor, "write", None)
         self.items.append((e, self._sim.now(), task_name(), item))
-        await self._inner.send(item)
-        self._sim.rec(self._actor, "write-done", None)
 
     def send_nowait(self, item):
+        self._inner.send_nowait(item)
         e = self._sim.rec(self._actor, "write", None)
         self.items.append((e, self._sim.now(), task_name(), item))
-        self._inner.send_nowait(item)
 
     async def aclose(self):
         await self._inner.aclose()
